@@ -141,3 +141,72 @@ Proof.
                 end
             end); reflexivity.
 Qed.
+
+Lemma declare_finish_ext p a b f n v pl : aeq a b -> declare_finish p a f n v pl = declare_finish p b f n v pl.
+Proof.
+  intro H. unfold declare_finish.
+  destruct (dp_tag pl) as [x|]; [|reflexivity].
+  set (acts1 := if dp_write pl then _ else _).
+  assert (H1 : aeq (aapply_all acts1 a) (aapply_all acts1 b)) by (apply aapply_all_aeq; exact H).
+  rewrite (occurrences_ext p _ _ n x f H1).
+  set (acts2 := map _ _).
+  assert (H2 : aeq (aapply_all acts2 (aapply_all acts1 a)) (aapply_all acts2 (aapply_all acts1 b)))
+    by (apply aapply_all_aeq; exact H1).
+  rewrite (find_exact_ext _ _ H2). reflexivity.
+Qed.
+
+Lemma unassign_acts_ext a b o t n vo : aeq a b -> unassign_acts a o t n vo = unassign_acts b o t n vo.
+Proof.
+  intro H. unfold unassign_acts. destruct vo as [v|].
+  - rewrite (roots_of_ext a b H), (find_exact_ext a b H).
+    destruct (find_exact b _ n v _) as [[s' r]|]; [|reflexivity].
+    rewrite (proj2 (proj2 H)). reflexivity.
+  - rewrite (proj1 H), !(find_tagged_ext a b H). reflexivity.
+Qed.
+
+Lemma undeclare_target_ext a b o n vo : aeq a b -> undeclare_target a o n vo = undeclare_target b o n vo.
+Proof.
+  intro H. unfold undeclare_target.
+  rewrite !(roots_of_ext a b H).
+  destruct vo as [v|].
+  - rewrite (find_exact_ext a b H). reflexivity.
+  - rewrite (classify_ext _ _ (decl_versions_ext a b _ _ n H)).
+    destruct (classify _); try reflexivity. rewrite (find_exact_ext a b H). reflexivity.
+Qed.
+
+Lemma decide_ext p a b o : aeq a b -> decide p a o = decide p b o.
+Proof.
+  intro H. destruct o as [o n v dir table t|o t n v|o t n vo|o n vo|o n vo t both|o n v]; cbn [decide].
+  - unfold declare_acts. rewrite (declare_plan_ext a b _ _ _ _ _ _ H).
+    destruct (declare_plan b o n v dir table t) as [pl|e]; [|reflexivity].
+    destruct (o_noaction o); [reflexivity|]. apply declare_finish_ext. exact H.
+  - unfold assign_acts. rewrite (roots_of_ext a b H), (find_exact_ext a b H). reflexivity.
+  - apply unassign_acts_ext. exact H.
+  - unfold undeclare_acts. rewrite (undeclare_target_ext a b _ _ _ H). reflexivity.
+  - unfold undeclare_tag_acts. destruct both; cbn [negb]; [|apply unassign_acts_ext; exact H].
+    unfold find_tagged_all. rewrite (roots_of_ext a b H), (find_tagged_raw_ext a b _ _ _ _ H).
+    rewrite (undeclare_target_ext a b _ _ _ H).
+    destruct (undeclare_target b o n _) as [[s' v']|e]; [|reflexivity].
+    rewrite (proj2 (proj2 H)). reflexivity.
+  - unfold remove_acts, undeclare_acts. rewrite (find_exact_ext a b H), (proj1 H).
+    rewrite (undeclare_target_ext a b _ _ _ H). reflexivity.
+Qed.
+
+Lemma astep_total_aeq p a b o : aeq a b -> aeq (astep_total p a o) (astep_total p b o).
+Proof.
+  intro H. unfold astep_total, astep_gen. rewrite (decide_ext p a b o H).
+  destruct (decide p b o); [apply aapply_all_aeq|]; exact H.
+Qed.
+
+Lemma arun_aeq p ops : forall a b, aeq a b -> aeq (arun p a ops) (arun p b ops).
+Proof.
+  unfold arun. induction ops as [|o ops IH]; intros a b H; cbn; [exact H|].
+  apply IH. apply astep_total_aeq. exact H.
+Qed.
+
+(* every history: the view of the files after the commands is the abstract run on the view before *)
+Lemma run_refines p ops : forall d, aeq (view (run p d ops)) (arun p (view d) ops).
+Proof.
+  unfold run, arun. induction ops as [|o ops IH]; intro d; cbn [fold_left]; [apply aeq_refl|].
+  eapply aeq_trans; [apply IH|]. apply (arun_aeq p ops). apply step_total_refines.
+Qed.
